@@ -945,8 +945,20 @@ func site(pc uintptr) siteT {
 }
 
 // R / W wrap a plain memory access (expression-level probes keep Go's evaluation order).
-func R[T any](p *T) *T { Access(unsafe.Pointer(p), false); return p }
-func W[T any](p *T) *T { Access(unsafe.Pointer(p), true); return p }
+// A variable of size zero occupies no memory: its address may coincide with the next field's (a
+// struct{} value in front of an atomic pointer) and an access to it touches nothing, so it is no event.
+func R[T any](p *T) *T {
+	if unsafe.Sizeof(*p) != 0 {
+		Access(unsafe.Pointer(p), false)
+	}
+	return p
+}
+func W[T any](p *T) *T {
+	if unsafe.Sizeof(*p) != 0 {
+		Access(unsafe.Pointer(p), true)
+	}
+	return p
+}
 
 // RM / WM probe the content of a map.
 func RM[M ~map[K]V, K comparable, V any](m M) M {
